@@ -377,7 +377,17 @@ func runDo(kind string, hooks bool, flusher string, reqSpec string, script strin
 			}
 		}
 		if n == 3 {
-			return po, l, c
+			// confirmed three more times before it is believed
+			for ; n < 6; n++ {
+				var pc string
+				po, _, pc, _ = runDoOnce(kind, hooks, flusher, reqSpec, script, 0, reply)
+				if !strings.Contains(po, "client:timeout") || strings.Contains(pc, ",r:") {
+					break
+				}
+			}
+			if n == 6 {
+				return po, l, c
+			}
 		}
 	}
 	return o, l, c
@@ -518,25 +528,32 @@ func runDoOnce(kind string, hooks bool, flusher string, reqSpec string, script s
 		if idleProbe {
 			// the same exchange once more, after an idle period: the same answer (a timeout that is reported although
 			// reads were made is starvation and says nothing)
-			time.Sleep(readTimeout + 50*time.Millisecond)
-			conn.mu.Lock()
-			conn.script = append([]readEv{}, evs...)
-			conn.pending = nil
-			servedBefore := len(conn.served)
-			conn.mu.Unlock()
 			var r2 packet.Response
 			var e2 error
-			func() {
-				defer func() {
-					if recover() != nil {
-						e2 = errors.New("PANIC")
-					}
+			reads := 0
+			for attempt := 0; attempt < 3; attempt++ {
+				time.Sleep(readTimeout + 50*time.Millisecond)
+				conn.mu.Lock()
+				conn.script = append([]readEv{}, evs...)
+				conn.pending = nil
+				servedBefore := len(conn.served)
+				conn.mu.Unlock()
+				r2, e2 = nil, nil
+				func() {
+					defer func() {
+						if recover() != nil {
+							e2 = errors.New("PANIC")
+						}
+					}()
+					r2, e2 = again()
 				}()
-				r2, e2 = again()
-			}()
-			conn.mu.Lock()
-			reads := len(conn.served) - servedBefore
-			conn.mu.Unlock()
+				conn.mu.Lock()
+				reads = len(conn.served) - servedBefore
+				conn.mu.Unlock()
+				if !(e2 != nil && strings.Contains(clientErrStr(e2), "client:timeout")) {
+					break // only a timeout can be the machine's fault: it is tried again
+				}
+			}
 			switch {
 			case e2 == nil && !isNilValue(r2) && respStr(r2) == before:
 			case e2 != nil && strings.Contains(clientErrStr(e2), "client:timeout") && reads > 0:
